@@ -14,8 +14,8 @@ package transport_controller
 //@   ensures ret1 == nil ==> ret0 >= min && ret0 >= n && (ret0 <= len(buf) || ret0 == n)
 //@   ensures ret1 == nil ==> rdpos[r] == old(rdpos[r]) + (ret0 - n)
 //@   ensures rdpos[r] >= old(rdpos[r])
-//@   ensures forall i int :: 0 <= i && i < n && i < len(buf) ==> buf[i] == old(buf[i])
-//@   ensures forall i int :: n <= i && i < ret0 ==> buf[i] == rddata(r, old(rdpos[r]) + (i - n))
+//@   ensures forall i int trigger buf[i] :: 0 <= i && i < n && i < len(buf) ==> buf[i] == old(buf[i])
+//@   ensures forall i int trigger buf[i] :: n <= i && i < ret0 ==> buf[i] == rddata(r, old(rdpos[r]) + (i - n))
 //@   ensures n >= min ==> ret0 == n
 //@   loop 1 invariant old(n) <= n && (n <= len(buf) || n == old(n))
 //@   loop 1 invariant old(n) >= min ==> n == old(n)
@@ -36,6 +36,7 @@ package transport_controller
 //@   noframe
 //@   assert at exit: ret1 == nil ==> content(b) == rdstr(r, old(rdpos[r]), old(rdpos[r]) + 4)
 //@   assert at exit: ret1 == nil ==> headerLenBytes == hdrVarLen(r, old(rdpos[r])) && headerLen == hdrLen(r, old(rdpos[r]))
+//@   assert at exit: ret1 == nil ==> forall i int trigger headerBuf[i] :: 0 <= i && i < len(headerBuf) ==> headerBuf[i] == rddata(r, old(rdpos[r]) + headerLenBytes + i)
 //@   assert at exit: ret1 == nil ==> content(headerBuf) == rdstr(r, old(rdpos[r]) + headerLenBytes, old(rdpos[r]) + headerLenBytes + headerLen)
 //@   ensures ret1 == nil ==> 1 <= hdrVarLen(r, old(rdpos[r])) && hdrVarLen(r, old(rdpos[r])) <= 4
 //@   ensures ret1 == nil ==> 1 <= hdrLen(r, old(rdpos[r])) && hdrLen(r, old(rdpos[r])) <= 100000
